@@ -189,3 +189,52 @@ u32 ir_fputc(u32 c, void *f){ __CPROVER_assert(f == &vp_file && vp_file.closed =
 #ifdef NEED_ir_vp_file
 void *ir_vp_file(void){ return &vp_file; }
 #endif
+
+/* ---- posix_memalign by contract (C14): precondition asserted; returns ENOMEM or a fresh block of exactly `size` bytes at offset 0 ---- */
+#ifdef NEED_ir_posix_memalign
+u32 vp_memalign_calls; u64 vp_memalign_last_align, vp_memalign_last_size; void *vp_memalign_last_ptr;
+u32 ir_posix_memalign(void *pp, u64 align, u64 size)
+{
+  __CPROVER_assert(align != 0 && (align & (align - 1)) == 0 && align % sizeof(void*) == 0, "VP:posix_memalign precondition: alignment is a power of two and a multiple of sizeof(void*)");
+  vp_memalign_calls++; vp_memalign_last_align = align; vp_memalign_last_size = size;
+  if (size > VP_HEAP_MAX || nondet_u8()) { vp_memalign_last_ptr = 0; return 12; }
+  void *p = vp_alloc(size); *(void**)pp = p; vp_memalign_last_ptr = p; return 0;
+}
+#endif
+#ifdef NEED_ir_vp_memalign_info
+void ir_vp_memalign_info(void *calls, void *align, void *size, void *ptr){ *(u32*)calls = vp_memalign_calls; *(u64*)align = vp_memalign_last_align; *(u64*)size = vp_memalign_last_size; *(void**)ptr = vp_memalign_last_ptr; }
+#endif
+
+/* ---- std::thread / condition_variable for the AsyncLoop protocol check (C03): the "background thread" is run by the harness
+   as the main flow (vp_run_thread); the controller's operations are injected at the RKCOMMON_VERIF scheduling points ---- */
+void *vp_thr_state; int vp_thr_started, vp_thr_finished, vp_in_join; int vp_cv_signal; int vp_cv_waiting;
+#ifdef NEED_ir__ZNSt6thread15_M_start_threadESt10unique_ptrINS_6_StateESt14default_deleteIS1_EEPFvvE
+void ir__ZNSt6thread15_M_start_threadESt10unique_ptrINS_6_StateESt14default_deleteIS1_EEPFvvE(void *thr, void *uptr, void *fn)
+{ vp_thr_state = *(void**)uptr; *(void**)uptr = 0; *(u64*)thr = 1; vp_thr_started++; }
+#endif
+#ifdef NEED_ir__ZNSt6thread4joinEv
+void ir__ZNSt6thread4joinEv(void *thr)
+{ /* the controller blocks here until the loop thread returns: from now on no further controller operation is injected */
+  __CPROVER_assert(*(u64*)thr != 0, "TRAP:join on a non-joinable thread"); vp_in_join = 1; *(u64*)thr = 0; }
+#endif
+#ifdef NEED_ir__ZNSt6thread6detachEv
+void ir__ZNSt6thread6detachEv(void *thr){ *(u64*)thr = 0; }
+#endif
+#ifdef NEED_ir__ZNSt6thread6_StateD2Ev
+void ir__ZNSt6thread6_StateD2Ev(void *s){ }
+#endif
+#ifdef NEED_ir__ZNSt6thread20hardware_concurrencyEv
+u32 ir__ZNSt6thread20hardware_concurrencyEv(void){ u32 n = nondet_u32(); __CPROVER_assume(n >= 1 && n <= 64); return n; }
+#endif
+#ifdef NEED_ir__ZNSt18condition_variableC1Ev
+void ir__ZNSt18condition_variableC1Ev(void *cv){ }
+#endif
+#ifdef NEED_ir__ZNSt18condition_variableD1Ev
+void ir__ZNSt18condition_variableD1Ev(void *cv){ }
+#endif
+#ifdef NEED_ir__ZNSt18condition_variable10notify_oneEv
+void ir__ZNSt18condition_variable10notify_oneEv(void *cv){ if (vp_cv_waiting) vp_cv_signal = 1; }
+#endif
+#ifdef NEED_ir__ZNSt18condition_variable10notify_allEv
+void ir__ZNSt18condition_variable10notify_allEv(void *cv){ if (vp_cv_waiting) vp_cv_signal = 1; }
+#endif
